@@ -320,6 +320,9 @@ theorem cmdServerSvsjoin_kstep {c0 c c' : Ctx} {sid : Id} {m : IrcMsg} (hc : KSt
     · obtain ⟨pn, hpn, hr⟩ := Res.bind_eq_ok.1 hr
       cases hr; kstep_tac
     · split at hr
+      · obtain ⟨pn, hpn, hr⟩ := Res.bind_eq_ok.1 hr
+        cases hr; kstep_tac
+      split at hr
       · cases hr
         exact hc.putChan
       · obtain ⟨c1, h1, hr⟩ := Res.bind_eq_ok.1 hr
